@@ -76,9 +76,12 @@ class Ctx:
     nonzero(node) -> bool: oracle for 'node is known non-zero' (used for 0 / x = 0, x / x = 1).
     """
 
-    def __init__(self, finite=False, nonzero=None):
+    def __init__(self, finite=False, nonzero=None, fold_inexact=False):
         self.finite = finite
         self.nonzero = nonzero or (lambda n: False)
+        # fold literal arithmetic even when the IEEE result is inexact (used when every input is a
+        # literal and the program's own floating-point arithmetic is what is being evaluated)
+        self.fold_inexact = fold_inexact
 
 
 DEFAULT = Ctx()
@@ -101,9 +104,11 @@ def _exact(op, x, y, r):
     return False
 
 
-def _fold2(op, a, b):
+def _fold2(op, a, b, ctx=None):
     x, y = litval(a), litval(b)
     r0 = _fold2_raw(op, a, b)
+    if ctx is not None and ctx.fold_inexact:
+        return r0
     if not _exact(op, x, y, litval(r0)):
         # keep inexact literal arithmetic symbolic: residuals denote real-number expressions and
         # a folded literal would bake one rounding into them
@@ -144,7 +149,7 @@ def mk(op, a, b=None, ctx=DEFAULT):
             return a[1]
         return ("neg", a)
     if is_lit(a) and is_lit(b):
-        return _fold2(op, a, b)
+        return _fold2(op, a, b, ctx)
     # NaN literal absorbs
     if is_nan_lit(a) or is_nan_lit(b):
         return NAN
